@@ -652,6 +652,63 @@ structure Policy (σ K X : Type) where
 def basePolicy {K X : Type} (dummyZ : X) : Policy Unit K X :=
   { kind := .base, update := fun m L _ _ => (L, m), getZ := fun _ => dummyZ }
 
+/-- memory of `BBStepSize`: `(xprev, gradprev)`, `None` before the first call -/
+abbrev BBMem (X : Type) := Option (X × X)
+
+/-- `BBStepSize.update` (`_pgmaux.py`).  `reInner a b` is `real(sum(conj(a) * b))`, `ok L` is
+    `isfinite(L) and L > 0` (the IEEE details of that test are property C16).  Documented (class docstring):
+    `Δx = x_k − x_{k−1}`, `Δg = ∇f(x_k) − ∇f(x_{k−1})`, `L = ΔgᵀΔg / ΔxᵀΔg`, "when the inner product is negative, the
+    previous iterate is used instead"; the memory is refreshed with `(v, ∇f(v))` in EVERY call (also after a
+    rejected value), so that the differences are always between consecutive iterates. -/
+def bbPolicy {K X : Type} [Sub X] [Div K] (gradf : X → X) (reInner : X → X → K) (ok : K → Bool) (dummyZ : X) :
+    Policy (BBMem X) K X :=
+  { kind := .bb,
+    update := fun mem L _ v =>
+      match mem with
+      -- if self.xprev is None: self.xprev = v; self.gradprev = self.pgm.f.grad(self.xprev); L = self.pgm.L
+      | none => (L, some (v, gradf v))
+      | some (xp, gp) =>
+        -- Δx = v - self.xprev; gradv = self.pgm.f.grad(v); Δg = gradv - self.gradprev
+        let dx := v - xp
+        let gv := gradf v
+        let dg := gv - gp
+        -- den = real(sum(Δx.conj() * Δg)); num = real(sum(Δg.conj() * Δg)); L = num / den
+        let Ln := reInner dg dg / reInner dx dg
+        -- if not isfinite(L) or L <= 0.0: L = self.pgm.L ;  self.xprev = v; self.gradprev = gradv
+        ((if ok Ln then Ln else L), some (v, gv)),
+    getZ := fun _ => dummyZ }
+
+/-- memory of `AdaptiveBBStepSize`: `(xprev, gradprev)`, `Lbb1prev`, `Lbb2prev` (each `None` until first set) -/
+structure ABBMem (K X : Type) where
+  prev : Option (X × X)
+  l1 : Option K
+  l2 : Option K
+
+/-- `AdaptiveBBStepSize.update` -/
+def abbPolicy {K X : Type} [Sub X] [Div K] [LT K] [DecidableLT K] (gradf : X → X) (reInner : X → X → K)
+    (ok : K → Bool) (kappa : K) (dummyZ : X) : Policy (ABBMem K X) K X :=
+  { kind := .adaptiveBB,
+    update := fun mem L _ v =>
+      match mem.prev with
+      | none => (L, { mem with prev := some (v, gradf v) })
+      | some (xp, gp) =>
+        let dx := v - xp
+        let gv := gradf v
+        let dg := gv - gp
+        let xx := reInner dx dx
+        let xg := reInner dx dg
+        let gg := reInner dg dg
+        -- Lbb1 = innerxg / innerxx; if not isfinite or <= 0: Lbb1 = self.Lbb1prev
+        let l1 := if ok (xg / xx) then some (xg / xx) else mem.l1
+        -- Lbb2 = innergg / innerxg; if not isfinite or <= 0: Lbb2 = self.Lbb2prev
+        let l2 := if ok (gg / xg) then some (gg / xg) else mem.l2
+        -- if Lbb1 is not None and Lbb2 is not None: L = Lbb2 if Lbb1 / Lbb2 < kappa else Lbb1 ; else L = self.pgm.L
+        let Ln := match l1, l2 with
+          | some a, some b => if a / b < kappa then b else a
+          | _, _ => L
+        (Ln, { prev := some (v, gv), l1 := l1, l2 := l2 }),
+    getZ := fun _ => dummyZ }
+
 structure PGMParams (σ K X : Type) where
   f : X → K
   g : X → K
